@@ -22,7 +22,13 @@ import Frp.Props.C06
    (3) limit.Writer / Reader ...................... writer_chunks, writer_chunk_bounds, writer_tokens, reader_le;
        against the limiter's admission check (`WaitN(n)` fails for n > burst on a finite limiter) and a
        sink that can fail ........................... writer_wait_never_refused, writer_finite_complete,
-       writer_short_count, writer_requests_cover, writer_calls_concat, reader_drain
+       writer_short_count, writer_requests_cover, writer_calls_concat, reader_drain;
+       the io.Reader / io.Writer CONTRACT for every wrapper (limit.Reader / Writer, StatsConn, pass-through), ALL sources
+       (scripts of (n, err) pairs: data together with EOF / another error, (0, nil), any segmentation) and all
+       contract-abiding sinks ....................... reader_pair_unchanged, reader_any_source, reader_any_prefix,
+       reader_read_bounds, reader_eof_with_data, stats_count_all, writer_any_sink, writer_calls_any_sink,
+       writer_lax_sink_witness (outside the contract); charging: reader_charged_partial, reader_tail_uncharged /
+       reader_charged_witness (DEFECT: bytes that come with an error pass the limiter for free)
    (4) token bucket ............................... bucket_bound, bucket_window_bound, writer_requests_admissible
    (5) close propagation .......................... client_close, server_close_fixed, server_close_partial,
        server_close_witness (DEFECT, DESIGN §7 #2), http_close_*, closeNotify_witness (DEFECT #17),
@@ -364,6 +370,105 @@ example : write false 3 4 [1, 2, 3, 4, 5, 6, 7, 8] =
 example : (readAll false 3 8 2 6 [1, 2, 3, 4, 5]).map (·.got) = [[1, 2], [3, 4], [5], []] := by decide
 /-- the check `WaitN` performs is not vacuous: a request of burst + 1 is refused by a finite limiter -/
 example : waitOk false 3 4 = false ∧ waitOk true 3 4 = true := by decide
+
+/-! ### (3c) the io.Reader / io.Writer contract: every wrapper, every source, every sink
+
+  `Limit.readW` mirrors `Read` of limit.Reader, StatsConn and the pass-through wrappers (CloseNotifyConn, ContextConn,
+  WrapReadWriteCloserConn, golib io.ReadWriteCloser) on the `(n, err)` PAIR the reader below returned; a source is a
+  script of such pairs (`Limit.Seg`): `(n > 0, EOF)` — how a quic stream ends —, `(n > 0, other error)`, `(0, nil)`,
+  one byte at a time, more than the buffer holds. -/
+
+/-- any stack of wrappers hands the caller the `(n, err)` pair of the source unchanged (read with the smallest of the
+    buffer and the bursts): no byte that came with an error is dropped, no error is swallowed or invented -/
+theorem reader_pair_unchanged (ws : List RW) (k : Nat) (src : List Seg) (hb : burstsPos ws = true) :
+    (readW ws k src).1.got = (srcRead (effK ws k) src).1.1 ∧
+    (readW ws k src).1.err = PErr.ofS (srcRead (effK ws k) src).1.2 ∧
+    (readW ws k src).2 = (srcRead (effK ws k) src).2 := by
+  rw [readW_eq ws k src hb]; exact ⟨rfl, rfl, rfl⟩
+
+/-- FOR ALL SOURCES: an `io.Copy`-like caller reading through any wrapper stack with any non-empty buffer gets, read by
+    read, exactly the bytes the source delivers up to and INCLUDING those that come with its final error, and then that
+    error; every read is at most the buffer and every burst; no `WaitN` is refused; a read without error asks each
+    limiter for exactly its bytes -/
+theorem reader_any_source (ws : List RW) (plen : Nat) (hb : burstsPos ws = true) (hp : 0 < plen) (src : List Seg) :
+    ((drainW ws plen (srcFuel src) src).map (·.got)).flatten = delivered src ∧
+    (∀ r ∈ drainW ws plen (srcFuel src) src, RResOk ws plen r) ∧
+    (∃ pre last, drainW ws plen (srcFuel src) src = pre ++ [last] ∧ (∀ r ∈ pre, r.err = .none) ∧
+      last.err = PErr.ofS (finalErr src) ∧ last.err ≠ .none) := by
+  obtain ⟨h1, h2, pre, last, h3, h4, h5⟩ := drainW_spec ws plen hb hp (srcFuel src) src (Nat.le_refl _)
+  refine ⟨h1, h2, pre, last, h3, h4, h5, ?_⟩
+  rw [h5]
+  have := finalErr_ne_none src
+  cases h : finalErr src <;> simp_all [PErr.ofS]
+
+/-- … and a caller that stops earlier has read a prefix of it -/
+theorem reader_any_prefix (ws : List RW) (plen : Nat) (hb : burstsPos ws = true) (hp : 0 < plen) (fuel : Nat)
+    (src : List Seg) : ((drainW ws plen fuel src).map (·.got)).flatten <+: delivered src :=
+  drainW_prefix ws plen hb hp fuel src
+
+/-- every read of a drain stays within the buffer and within the burst of every limiter of the stack -/
+theorem reader_read_bounds (ws : List RW) (plen : Nat) (hb : burstsPos ws = true) (hp : 0 < plen) (src : List Seg)
+    (r : RRes) (hr : r ∈ drainW ws plen (srcFuel src) src) :
+    r.got.length ≤ plen ∧ ∀ inf b, RW.limit inf b ∈ ws → r.got.length ≤ b :=
+  have h := ((reader_any_source ws plen hb hp src).2.1 r hr).2.1
+  ⟨Nat.le_trans h (effK_le ws plen), fun inf b hm => Nat.le_trans h (effK_le_burst ws plen inf b hm)⟩
+
+/-- the way a quic stream ends — the last bytes TOGETHER WITH end-of-stream — through limit.Reader under any other
+    wrappers: the caller gets every byte, then EOF (and a tcp / yamux end, `(n, nil)` then `(0, EOF)`, alike) -/
+theorem reader_eof_with_data (ws : List RW) (plen : Nat) (hb : burstsPos ws = true) (hp : 0 < plen) (pre d : C01Bytes) :
+    ((drainW ws plen (srcFuel [⟨pre, .none⟩, ⟨d, .eof⟩]) [⟨pre, .none⟩, ⟨d, .eof⟩]).map (·.got)).flatten = pre ++ d ∧
+    ((drainW ws plen (srcFuel [⟨pre, .none⟩, ⟨d, .none⟩, ⟨[], .eof⟩]) [⟨pre, .none⟩, ⟨d, .none⟩, ⟨[], .eof⟩]).map
+      (·.got)).flatten = pre ++ d := by
+  refine ⟨(reader_any_source ws plen hb hp _).1.trans ?_, (reader_any_source ws plen hb hp _).1.trans ?_⟩
+  · simp [delivered]
+  · simp [delivered]
+
+/-- `StatsConn.totalRead` after a drain = the number of bytes the source delivered (those of the failing read included) -/
+theorem stats_count_all (ws : List RW) (plen : Nat) (hb : burstsPos ws = true) (hp : 0 < plen) (src : List Seg) :
+    statsCount (drainW ws plen (srcFuel src) src) = (delivered src).length := by
+  have h := (reader_any_source ws plen hb hp src).1
+  have := sum_map_length_flatten ((drainW ws plen (srcFuel src) src).map (·.got))
+  rw [List.map_map, h] at this
+  exact this
+
+/-- faithful to reader.go: the bytes that come with an error are handed on but NOT charged to the limiter
+    (`if err != nil { return }` precedes `WaitN`) — with a transport that ends every stream `(n, EOF)` the last read of
+    every connection (up to one burst) passes the limiter for free -/
+theorem reader_tail_uncharged (inf : Bool) (b plen : Nat) (d : C01Bytes) (hd : d.length ≤ readerAsk b plen) :
+    (readW [.limit inf b] plen [⟨d, .eof⟩]).1 = { got := d, err := .eof, reqs := [] } := by
+  simp [readW, srcRead, hd, PErr.ofS]
+
+/-- FOR ALL contract-abiding SINKS (full counts, short counts with an error, full counts with an error, at any call):
+    `Write` through any wrapper stack returns exactly the number of bytes the sink took — the sum of the counts the sink
+    returned —, never more than `len(p)`, `len(p)` whenever it returns nil; the bytes the sink took are the first `n`
+    bytes of `p`; no `WaitN` is refused -/
+theorem writer_any_sink (ws : List RW) (hb : limPos ws = true) (ss : List SinkResp) (hs : sinkOk ss = true) (p : C01Bytes) :
+    (writeW ws ss p).1.n = (writeW ws ss p).1.took.sum ∧ (writeW ws ss p).1.n ≤ p.length ∧
+    (writeW ws ss p).1.accepted = p.take (writeW ws ss p).1.n ∧
+    ((writeW ws ss p).1.err = .none → (writeW ws ss p).1.n = p.length) ∧ (writeW ws ss p).1.err ≠ .wait :=
+  have s := writeW_spec ws hb ss p hs
+  ⟨s.n_eq, s.n_le, s.acc, s.ok_full, s.noWait⟩
+
+/-- a stream written in any pieces through any wrapper stack into any contract-abiding sink by a caller that stops at
+    the first error: the sink holds exactly the first `Σ n` bytes of the stream -/
+theorem writer_calls_any_sink (ws : List RW) (hb : limPos ws = true) (ps : List C01Bytes) (ss : List SinkResp)
+    (hs : sinkOk ss = true) :
+    ((writeManyW ws ss ps).map WRes.accepted).flatten = ps.flatten.take ((writeManyW ws ss ps).map (·.n)).sum :=
+  writeManyW_spec ws hb ps ss hs
+
+/-- outside the contract (a sink that returns a short count and a nil error) `Writer.Write` goes on with `p[end:]`: the
+    sink ends up with a stream that has a hole, `Write` reports `(n < len(p), nil)` — every sink frp puts below a
+    limit.Writer (net.Conn, the cipher writer, the snappy writer) abides by the contract -/
+theorem writer_lax_sink_witness :
+    (writeS false 4 [⟨1, false, true⟩] [1, 2, 3, 4, 5, 6]).1.accepted = [1, 5, 6] ∧
+    (writeS false 4 [⟨1, false, true⟩] [1, 2, 3, 4, 5, 6]).1.n = 3 ∧
+    (writeS false 4 [⟨1, false, true⟩] [1, 2, 3, 4, 5, 6]).1.err = .none := by decide
+
+example : (drainW [.stats, .limit false 3, .pass] 8 20 [⟨[1, 2, 3, 4], .none⟩, ⟨[], .none⟩, ⟨[5, 6], .eof⟩]).map
+    (fun r => (r.got, r.err, r.reqs)) =
+    [([1, 2, 3], .none, [3]), ([4], .none, [1]), ([], .none, [0]), ([5, 6], .eof, [])] := by decide
+example : (writeS false 3 [⟨3, false, false⟩, ⟨1, false, false⟩] [1, 2, 3, 4, 5, 6, 7]).1 =
+    { n := 4, err := .sink, reqs := [3, 3], offered := [[1, 2, 3], [4, 5, 6]], took := [3, 1] } := by decide
 
 /-! ## (4) token bucket -/
 
@@ -812,6 +917,151 @@ theorem rlim_model_holdsOn (inf : Bool) (b plen per : Nat) (hb : 0 < b) (hp : 0 
   simp only [rlimHoldsOn, hlast, hsum, hcov, Bool.true_and, Bool.and_true, beq_self_eq_true, List.all_eq_true,
     decide_eq_true_eq]
   exact hall
+
+/-- one recorded drain of a REAL wrapper stack over a scripted source: the bytes of every `Read` (the failing one
+    included), the tokens each took when the harness could observe them, the error that ended the drain (`none` = it
+    did not end), whether the bytes read are the bytes the source delivered, `StatsConn`'s count.  `cap` = the smallest
+    of the buffer and the bursts -/
+def rsrcHoldsOn (cap : Nat) (src : List Seg) (ns : List Nat) (toks : Option (List Nat)) (endE : Option PErr)
+    (cat : Bool) (cnt : Option Nat) : Bool :=
+  cat && ns.sum == (delivered src).length && ns.all (fun n => decide (n ≤ cap)) &&
+  (if finalErr src = .eof then endE == some .eof else endE.isSome && endE != some .none) &&
+  (match toks with
+   | some ts => tokensCover ts.dropLast ns.dropLast
+   | none => true) &&
+  (match cnt with
+   | some c => c == ns.sum
+   | none => true)
+
+theorem dropLast_map {α β : Type} (f : α → β) : ∀ (l : List α), (l.map f).dropLast = l.dropLast.map f
+  | [] => rfl
+  | [_] => rfl
+  | a :: b :: l => by simp [List.dropLast]
+
+/-- the model's own drain satisfies the predicate, for every wrapper stack, buffer and source (tokens are observed
+    when the stack has a limiter) -/
+theorem rsrc_model_holdsOn (ws : List RW) (plen : Nat) (hb : burstsPos ws = true) (hp : 0 < plen) (src : List Seg) :
+    rsrcHoldsOn (effK ws plen) src ((drainW ws plen (srcFuel src) src).map (·.got.length))
+      (if nLim ws = 0 then none else some ((drainW ws plen (srcFuel src) src).map (·.reqs.sum)))
+      ((drainW ws plen (srcFuel src) src).getLast?.map (·.err)) true
+      (some (statsCount (drainW ws plen (srcFuel src) src))) = true := by
+  have hcnt := stats_count_all ws plen hb hp src
+  obtain ⟨h1, h2, pre, last, h3, h4, h5, h6⟩ := reader_any_source ws plen hb hp src
+  generalize drainW ws plen (srcFuel src) src = rs at h1 h2 h3 hcnt
+  have hsum : (rs.map (·.got.length)).sum = (delivered src).length := hcnt
+  have hall : ((rs.map (·.got.length)).all fun n => decide (n ≤ effK ws plen)) = true := by
+    simp only [List.all_eq_true, decide_eq_true_eq]
+    intro n hn
+    obtain ⟨r, hr, rfl⟩ := List.mem_map.mp hn
+    exact (h2 r hr).2.1
+  have hlast : rs.getLast?.map (·.err) = some (PErr.ofS (finalErr src)) := by rw [h3]; simp [h5]
+  have hend : (if finalErr src = .eof then rs.getLast?.map (·.err) == some PErr.eof
+      else (rs.getLast?.map (·.err)).isSome && rs.getLast?.map (·.err) != some PErr.none) = true := by
+    rw [hlast]
+    have hne := finalErr_ne_none src
+    cases hf : finalErr src <;> simp_all [PErr.ofS]
+  have hcov : (match (if nLim ws = 0 then none else some (rs.map (·.reqs.sum))) with
+      | some ts => tokensCover ts.dropLast (rs.map (·.got.length)).dropLast
+      | none => true) = true := by
+    cases hn : nLim ws with
+    | zero => simp
+    | succ m =>
+      simp only [Nat.succ_ne_zero, if_false]
+      rw [dropLast_map, dropLast_map, h3, List.dropLast_concat]
+      apply tokensCover_map
+      intro r hr
+      have hr' : r ∈ rs := by rw [h3]; exact List.mem_append_left _ hr
+      rw [(h2 r hr').2.2.1 (h4 r hr), hn]
+      simp only [List.replicate_succ, List.sum_cons]
+      exact Nat.le_add_right _ _
+  simp only [rsrcHoldsOn, hsum, hcnt, hend, hcov, hall, beq_self_eq_true, Bool.and_self]
+
+/-- every byte handed to the caller was charged: the tokens of each `Read` — the failing one included — cover its bytes
+    (the bandwidth clause: what a limiter lets through without asking is not bounded by the bucket) -/
+def rsrcChargedOn (ns : List Nat) (toks : Option (List Nat)) : Bool :=
+  match toks with
+  | some ts => tokensCover ts ns
+  | none => true
+
+/-- over a source whose errors come on a read of their own (tcp, yamux, websocket) every byte is charged -/
+theorem reader_charged_partial (ws : List RW) (plen : Nat) (hb : burstsPos ws = true) (hp : 0 < plen) (src : List Seg)
+    (ho : ownErr src = true) (hl : 0 < nLim ws) :
+    rsrcChargedOn ((drainW ws plen (srcFuel src) src).map (·.got.length))
+      (some ((drainW ws plen (srcFuel src) src).map (·.reqs.sum))) = true := by
+  have h2 := (reader_any_source ws plen hb hp src).2.1
+  have h3 := drainW_ownErr ws plen hb (srcFuel src) src ho
+  generalize drainW ws plen (srcFuel src) src = rs at h2 h3
+  simp only [rsrcChargedOn]
+  apply tokensCover_map
+  intro r hr
+  by_cases he : r.err = .none
+  · rw [(h2 r hr).2.2.1 he]
+    obtain ⟨m, hm⟩ : ∃ m, nLim ws = m + 1 := ⟨nLim ws - 1, by omega⟩
+    rw [hm]
+    simp only [List.replicate_succ, List.sum_cons]
+    exact Nat.le_add_right _ _
+  · rw [h3 r hr he]; exact Nat.zero_le _
+
+/-- DEFECT (faithful to reader.go): over a source that ends `(n > 0, EOF)` — a quic stream — the last `n` bytes (up to one
+    burst per connection) are handed on without a token: `if err != nil { return }` comes before `WaitN` -/
+theorem reader_charged_witness :
+    rsrcChargedOn ((drainW [.limit false 8] 8 (srcFuel [⟨[1, 2], .eof⟩]) [⟨[1, 2], .eof⟩]).map (·.got.length))
+      (some ((drainW [.limit false 8] 8 (srcFuel [⟨[1, 2], .eof⟩]) [⟨[1, 2], .eof⟩]).map (·.reqs.sum))) = false := by
+  decide
+
+/-- one recorded `Write` of a REAL wrapper stack over a scripted sink: `len(p)`, the returned count, whether
+    `err == nil`, the sizes the sink was offered, the counts the sink returned, whether the sink returned an error
+    during this call, the tokens each `WaitN` took when observed -/
+structure WSObs where
+  len : Nat
+  n : Nat
+  ok : Bool
+  offered : List Nat
+  took : List Nat
+  sinkErr : Bool
+  reqs : Option (List Nat)
+  deriving DecidableEq, Repr
+
+/-- what C01 demands of one `Write` over a contract-abiding sink: the count is what the sink took (not less: the caller
+    would send those bytes again; not more: they would be lost), at most `len(p)`, `len(p)` when no error is returned;
+    an error of the sink is reported; the limiter was asked for at least the bytes that went through -/
+def wsObsOk (o : WSObs) : Bool :=
+  o.n == o.took.sum && decide (o.n ≤ o.len) && (!o.ok || o.n == o.len) && (!o.sinkErr || !o.ok) &&
+  (match o.reqs with
+   | some rs => tokensCover rs o.offered
+   | none => true)
+
+/-- a run of `Write` calls that stops at the first error; `cat` = the sink holds exactly the first `Σ n` bytes -/
+def wsnkHoldsOn (obs : List WSObs) (cat : Bool) : Bool := cat && obs.all wsObsOk
+
+def WSObs.ofModel (ws : List RW) (p : C01Bytes) (o : WRes) : WSObs :=
+  { len := p.length, n := o.n, ok := o.err == .none, offered := o.offered.map List.length, took := o.took,
+    sinkErr := o.err == .sink, reqs := if (limOf ws).isSome then some o.reqs else none }
+
+/-- the model's own `Write` satisfies the predicate, for every wrapper stack, contract-abiding sink and payload -/
+theorem wsnk_model_holdsOn (ws : List RW) (hb : limPos ws = true) (ss : List SinkResp) (hs : sinkOk ss = true)
+    (p : C01Bytes) : wsObsOk (WSObs.ofModel ws p (writeW ws ss p).1) = true := by
+  obtain ⟨h1, h2, _, h4, h5⟩ := writer_any_sink ws hb ss hs p
+  have hreq : (match (if (limOf ws).isSome then some (writeW ws ss p).1.reqs else none) with
+      | some rs => tokensCover rs ((writeW ws ss p).1.offered.map List.length)
+      | none => true) = true := by
+    cases hl : limOf ws with
+    | none => simp
+    | some ib =>
+      obtain ⟨inf, b⟩ := ib
+      simp only [Option.isSome_some, if_true, writeW, hl, writeS, writeSAux_reqs, tokensCover_self]
+  have hok : (!((writeW ws ss p).1.err == WErr.none) || (writeW ws ss p).1.n == p.length) = true := by
+    cases he : (writeW ws ss p).1.err with
+    | none => simp [h4 he]
+    | wait => simp
+    | sink => simp
+  have hse : (!((writeW ws ss p).1.err == WErr.sink) || !((writeW ws ss p).1.err == WErr.none)) = true := by
+    cases (writeW ws ss p).1.err <;> simp
+  have hn : ((writeW ws ss p).1.n == (writeW ws ss p).1.took.sum) = true := by
+    rw [← h1]; exact beq_self_eq_true _
+  have hle : decide ((writeW ws ss p).1.n ≤ p.length) = true := decide_eq_true h2
+  simp only [wsObsOk, WSObs.ofModel, hn, hok, hse, hreq, Bool.true_and, Bool.and_true]
+  exact hle
 
 /-- what an end-to-end transfer observed -/
 structure Obs where
